@@ -159,6 +159,10 @@ def _np_op(op, a, p):
         return np.expand_dims(a[0], p["axis"])
     if op == "sumb":
         return np.sum(a[0]) + a[0]
+    if op == "lpcall":
+        return 2 * a[0]
+    if op == "fncall":
+        return _mr_fn(a[0])
     raise ValueError(op)
 
 
@@ -208,10 +212,27 @@ def _pt_op(op, a, p):
         return pt.expand_dims(a[0], p["axis"])
     if op == "sumb":
         return pt.sum(a[0]) + a[0]
+    if op == "lpcall":
+        # a call to a hand-written loopy kernel (out[i] = 2*a[i])
+        from pytato.loopy import call_loopy
+        from .srecipe import loopy_kernel
+        # (the operand is deduplicated first: call_loopy walks it with a
+        # collision-checking mapper and, in debug mode, refuses operands that
+        # contain equal but distinct nodes -- which any expression built
+        # piecemeal does until the final deduplicate)
+        return call_loopy(loopy_kernel("twice", int(a[0].shape[0])),
+                          {"a": pt.transform.deduplicate(a[0])}, "twice")["out"]
+    if op == "fncall":
+        # an outlined function (a Call node and a NamedCallResult)
+        return pt.trace_call(_mr_fn, a[0])
     raise ValueError(op)
 
 
-ARITY = {"add": 2, "sub": 2, "mul": 2, "max": 2, "min": 2, "addc": 1, "mulc": 1,
+def _mr_fn(x):
+    return x * 3 + 1
+
+
+ARITY = {"lpcall": 1, "fncall": 1, "add": 2, "sub": 2, "mul": 2, "max": 2, "min": 2, "addc": 1, "mulc": 1,
          "neg": 1, "where": 2, "roll": 1, "transpose": 1, "reshape": 1,
          "sum": 1, "amax": 1, "stack": 2, "concat": 2, "index": 1, "advidx": 1,
          "einsum": 2, "tofloat": 1, "expand": 1, "sumb": 1}
@@ -220,7 +241,11 @@ OP_WEIGHTS = [("add", 8), ("sub", 3), ("mul", 4), ("max", 2), ("min", 1),
               ("addc", 4), ("mulc", 3), ("neg", 2), ("where", 2), ("roll", 3),
               ("transpose", 2), ("reshape", 2), ("sum", 3), ("amax", 1),
               ("stack", 2), ("concat", 2), ("index", 3), ("advidx", 1),
-              ("einsum", 2), ("tofloat", 1), ("expand", 1), ("sumb", 2)]
+              ("einsum", 2), ("tofloat", 1), ("expand", 1), ("sumb", 2),
+              ("lpcall", 2)]
+# ("fncall" -- an outlined function, Call + NamedCallResult -- is implemented
+# in both op tables but not drawn: the partitioner refuses it with an explicit
+# NotImplementedError("... does not support functions"); users inline first.)
 
 
 def _draw_params(rng, op, vals):
@@ -234,6 +259,13 @@ def _draw_params(rng, op, vals):
         return {}
     if op in ("addc", "mulc", "where"):
         return {"c": rng.randint(-3, 3)}
+    if op == "lpcall":
+        # the kernel takes one-dimensional float64 data
+        if nd != 1 or a.dtype != np.float64 or a.shape[0] == 0:
+            return None
+        return {}
+    if op == "fncall":
+        return {}
     if op == "roll":
         if nd == 0:
             return None
@@ -1147,6 +1179,8 @@ def probes(recipe):
         return None
     p["zero_size_message"] = any(_size(c["src_val"]) == 0 for c in lc)
     p["mpms"] = bool(recipe.get("mpms"))
+    p["loopy_call_in_distributed_dag"] = any(
+        vals[i]["op"] == "lpcall" for i in live)
     p["staple_on_intermediate"] = any(c["staple"][0] == "val" for c in lc)
     p["shared_sym_tag"] = len({tuple(c["tag"]) for c in lc}) < len(lc)
     p["ncomm_live"] = len(lc)
